@@ -31,6 +31,50 @@ pub open spec fn le_val8(s: Seq<u8>) -> nat { s[0] as nat * pow256(0) + s[1] as 
 pub open spec fn be_seq8(v: nat) -> Seq<u8> { seq![byte_of(v, 7), byte_of(v, 6), byte_of(v, 5), byte_of(v, 4), byte_of(v, 3), byte_of(v, 2), byte_of(v, 1), byte_of(v, 0)] }
 pub open spec fn be_val8(s: Seq<u8>) -> nat { s[0] as nat * pow256(7) + s[1] as nat * pow256(6) + s[2] as nat * pow256(5) + s[3] as nat * pow256(4) + s[4] as nat * pow256(3) + s[5] as nat * pow256(2) + s[6] as nat * pow256(1) + s[7] as nat * pow256(0) }
 
+// ---- round-trip lemmas for the byte-order spec functions (pure arithmetic) ----
+pub proof fn lemma_bytes8_sum(v: u64)
+    ensures ((v / 1) % 256) * 1 + ((v / 0x100) % 256) * 0x100 + ((v / 0x1_0000) % 256) * 0x1_0000 + ((v / 0x100_0000) % 256) * 0x100_0000 + ((v / 0x1_0000_0000) % 256) * 0x1_0000_0000 + ((v / 0x100_0000_0000) % 256) * 0x100_0000_0000 + ((v / 0x1_0000_0000_0000) % 256) * 0x1_0000_0000_0000 + ((v / 0x100_0000_0000_0000) % 256) * 0x100_0000_0000_0000 == v
+{
+    assert(((v / 1) % 256) * 1 + ((v / 0x100) % 256) * 0x100 + ((v / 0x1_0000) % 256) * 0x1_0000 + ((v / 0x100_0000) % 256) * 0x100_0000 + ((v / 0x1_0000_0000) % 256) * 0x1_0000_0000 + ((v / 0x100_0000_0000) % 256) * 0x100_0000_0000 + ((v / 0x1_0000_0000_0000) % 256) * 0x1_0000_0000_0000 + ((v / 0x100_0000_0000_0000) % 256) * 0x100_0000_0000_0000 == v) by (bit_vector);
+}
+pub proof fn lemma_bytes4_sum(v: u32)
+    ensures ((v / 1) % 256) * 1 + ((v / 0x100) % 256) * 0x100 + ((v / 0x1_0000) % 256) * 0x1_0000 + ((v / 0x100_0000) % 256) * 0x100_0000 == v
+{
+    assert(((v / 1) % 256) * 1 + ((v / 0x100) % 256) * 0x100 + ((v / 0x1_0000) % 256) * 0x1_0000 + ((v / 0x100_0000) % 256) * 0x100_0000 == v) by (bit_vector);
+}
+pub proof fn lemma_le1_inv(v: nat)
+    requires v < 0x100
+    ensures le_val1(le_seq1(v)) == v, le_seq1(v).len() == 1
+{  }
+pub proof fn lemma_be1_inv(v: nat)
+    requires v < 0x100
+    ensures be_val1(be_seq1(v)) == v, be_seq1(v).len() == 1
+{  }
+pub proof fn lemma_le2_inv(v: nat)
+    requires v < 0x1_0000
+    ensures le_val2(le_seq2(v)) == v, le_seq2(v).len() == 2
+{  }
+pub proof fn lemma_be2_inv(v: nat)
+    requires v < 0x1_0000
+    ensures be_val2(be_seq2(v)) == v, be_seq2(v).len() == 2
+{  }
+pub proof fn lemma_le4_inv(v: nat)
+    requires v < 0x1_0000_0000
+    ensures le_val4(le_seq4(v)) == v, le_seq4(v).len() == 4
+{ lemma_bytes4_sum(v as u32); }
+pub proof fn lemma_be4_inv(v: nat)
+    requires v < 0x1_0000_0000
+    ensures be_val4(be_seq4(v)) == v, be_seq4(v).len() == 4
+{ lemma_bytes4_sum(v as u32); }
+pub proof fn lemma_le8_inv(v: nat)
+    requires v < 0x1_0000_0000_0000_0000
+    ensures le_val8(le_seq8(v)) == v, le_seq8(v).len() == 8
+{ lemma_bytes8_sum(v as u64); }
+pub proof fn lemma_be8_inv(v: nat)
+    requires v < 0x1_0000_0000_0000_0000
+    ensures be_val8(be_seq8(v)) == v, be_seq8(v).len() == 8
+{ lemma_bytes8_sum(v as u64); }
+
 pub trait VBytes: Sized {
     spec fn le_bytes(&self) -> Seq<u8>;
     spec fn be_bytes(&self) -> Seq<u8>;
